@@ -371,28 +371,38 @@ def eIncompatibleSG : String := "retention_policy_hot_duration/warm_duration/ind
 def eShardMerge : String := "retention_policy_shardMerge_duration_must_be_a_multiple_of_shardGroup_duration"
 def eIncompatibleIG : String := "retention_policy:_index_cold_duration_should_be_equals_to_m_*_index_duration_and_n_*_shard_duration,_where_m/n_>=_1"
 
-/-- `RetentionPolicyInfo.CheckSpecValid`: normalises, then the chain of checks in source order. -/
-def checkSpecValid (x : Durs) : Except String Durs :=
+/-- first half of `RetentionPolicyInfo.CheckSpecValid`: the three normalisations -/
+def Durs.normalise (x : Durs) : Durs :=
   let sg := normalisedShardDuration x.sg x.duration
-  let ig := normalisedIndexDuration x.ig sg
-  let mg := normalisedShardMergeDuration x.merge sg
-  let y : Durs := { x with sg := sg, ig := ig, merge := mg }
-  if y.hot % sg ≠ 0 ∨ y.warm % sg ≠ 0 then .error eIncompatibleSG
-  else if y.duration ≠ 0 ∧ y.duration < minRetentionPolicyDuration then .error eTooLow
-  else if y.hot ≠ 0 ∧ y.hot < minRetentionPolicyDuration then .error eTooLow
-  else if y.warm ≠ 0 ∧ y.warm < minRetentionPolicyDuration then .error eTooLow
-  else if y.cold ≠ 0 ∧ y.cold < hour then .error eColdTooLow
-  else if y.duration ≠ 0 ∧ y.duration < sg then .error eIncompatibleDurations
-  else if y.hot ≠ 0 ∧ y.hot < sg then .error eIncompatibleHot
-  else if y.warm ≠ 0 ∧ y.warm < sg then .error eIncompatibleWarm
-  else if y.warm ≠ y.duration ∧ y.warm % sg ≠ 0 then .error eIncompatibleSG
-  else if y.duration ≠ 0 ∧ y.hot ≠ 0 ∧ y.hot > y.duration then .error eIncompatibleHot
-  else if y.duration ≠ 0 ∧ y.warm ≠ 0 ∧ y.warm > y.duration then .error eIncompatibleWarm
-  else if mg ≠ 0 ∧ sg ≠ 0 ∧ mg % sg ≠ 0 then .error eShardMerge
-  else if mg ≠ 0 ∧ ig ≠ 0 ∧ mg ≠ ig then .error eShardMerge
-  else if y.cold ≠ 0 ∧ ig ≠ 0 ∧ y.cold % ig ≠ 0 then .error eIncompatibleIG
-  else if y.cold ≠ 0 ∧ sg ≠ 0 ∧ y.cold % sg ≠ 0 then .error eIncompatibleIG
-  else .ok y
+  { x with sg := sg, ig := normalisedIndexDuration x.ig sg, merge := normalisedShardMergeDuration x.merge sg }
+
+/-- second half: the chain of checks in source order (`none` = valid) -/
+def Durs.validate (y : Durs) : Option String :=
+  let sg := y.sg
+  let ig := y.ig
+  let mg := y.merge
+  if y.hot % sg ≠ 0 ∨ y.warm % sg ≠ 0 then some eIncompatibleSG
+  else if y.duration ≠ 0 ∧ y.duration < minRetentionPolicyDuration then some eTooLow
+  else if y.hot ≠ 0 ∧ y.hot < minRetentionPolicyDuration then some eTooLow
+  else if y.warm ≠ 0 ∧ y.warm < minRetentionPolicyDuration then some eTooLow
+  else if y.cold ≠ 0 ∧ y.cold < hour then some eColdTooLow
+  else if y.duration ≠ 0 ∧ y.duration < sg then some eIncompatibleDurations
+  else if y.hot ≠ 0 ∧ y.hot < sg then some eIncompatibleHot
+  else if y.warm ≠ 0 ∧ y.warm < sg then some eIncompatibleWarm
+  else if y.warm ≠ y.duration ∧ y.warm % sg ≠ 0 then some eIncompatibleSG
+  else if y.duration ≠ 0 ∧ y.hot ≠ 0 ∧ y.hot > y.duration then some eIncompatibleHot
+  else if y.duration ≠ 0 ∧ y.warm ≠ 0 ∧ y.warm > y.duration then some eIncompatibleWarm
+  else if mg ≠ 0 ∧ sg ≠ 0 ∧ mg % sg ≠ 0 then some eShardMerge
+  else if mg ≠ 0 ∧ ig ≠ 0 ∧ mg ≠ ig then some eShardMerge
+  else if y.cold ≠ 0 ∧ ig ≠ 0 ∧ y.cold % ig ≠ 0 then some eIncompatibleIG
+  else if y.cold ≠ 0 ∧ sg ≠ 0 ∧ y.cold % sg ≠ 0 then some eIncompatibleIG
+  else none
+
+/-- `RetentionPolicyInfo.CheckSpecValid`: normalises, then checks. -/
+def checkSpecValid (x : Durs) : Except String Durs :=
+  match x.normalise.validate with
+  | some e => .error e
+  | none => .ok x.normalise
 
 def RPSpec.durs (s : RPSpec) : Durs :=
   { duration := s.duration, sg := s.sgDuration, ig := s.igDuration, merge := s.shardMerge, hot := s.hot, warm := s.warm, cold := s.indexCold }
